@@ -259,6 +259,9 @@ func check(c Case) error {
 	if err := sameValue("polyjson.Parse(json.Marshal(x)), a second time, after the caller had written into the first result", build(c), y2); err != nil {
 		return err
 	}
+	if len(x.Sequence) <= 100000 { // kept by the caller while other documents are parsed (vk.Hold)
+		vk.Hold("the value polyjson.Parse returned", func() error { return sameValue("the value parsed earlier", build(c), y2) })
+	}
 	p := filepath.Join(vk.WorkDir(), "x.json")
 	defer os.Remove(p)
 	vk.StaleFile(p, 4*len(x.Sequence)+20000)
